@@ -152,6 +152,18 @@ func searchEnum(s pbt.Src, thorough bool) searchCase {
 	return c
 }
 
+// bigInts: a long slice (hundreds to thousands of values (a*i*i+b*i) mod width, shifted to be centred on zero).
+func bigInts(s pbt.Src) []int {
+	n := []int{255, 256, 257, 1000, 1024, 1025, 2048, 4097, 10000}[s.Intn(9)]
+	width := []int{3, 50, n, 1000003}[s.Intn(4)]
+	a, b := 1+s.Intn(9), s.Intn(9)
+	out := make([]int, n)
+	for i := range out {
+		out[i] = (a*i*i+b*i)%width - width/2
+	}
+	return out
+}
+
 func searchGen(s pbt.Src, thorough bool) searchCase {
 	c := searchCase{Kind: s.Intn(nElemKinds), Pred: s.Intn(len(predNames))}
 	width := pbt.Pick(s, 2, 6, 50, 1000000)
@@ -160,6 +172,9 @@ func searchGen(s pbt.Src, thorough bool) searchCase {
 		maxLen = 150
 	}
 	c.S = pbt.Seq(s, 0, maxLen, func(s pbt.Src) int { return pbt.Range(s, -width, width) })
+	if s.Intn(14) == 0 {
+		c.S = bigInts(s)
+	}
 	if len(c.S) > 0 && s.Intn(4) != 0 {
 		c.Probe = c.S[s.Intn(len(c.S))]
 	} else {
@@ -359,6 +374,9 @@ func nthGen(s pbt.Src, thorough bool) nthCase {
 		maxLen = 150
 	}
 	c.S = pbt.Seq(s, 0, maxLen, func(s pbt.Src) int { return pbt.Range(s, -1000, 1000) })
+	if s.Intn(14) == 0 {
+		c.S = bigInts(s)
+	}
 	n := len(c.S)
 	switch s.Intn(8) {
 	case 0:
@@ -529,6 +547,9 @@ func extGen(s pbt.Src, thorough bool) extCase {
 		maxLen = 150
 	}
 	c.S = pbt.Seq(s, 0, maxLen, func(s pbt.Src) int { return pbt.Range(s, -width, width) })
+	if s.Intn(14) == 0 {
+		c.S = bigInts(s)
+	}
 	return c
 }
 
